@@ -93,10 +93,23 @@ let clauses_raw h (impl : string) : (string * bool) list =
             @ (if dlo = None && (alg = "M" || alg = "L") && small_box os oe ns ne then
                  [ ("minimal", check_minimal orc.o_on (n os) (n oe) (n ns) (n ne) ops) ]
                else [])
+            (* large boxes: the items >= planted occur once on each side and in the same order (checked here), so they
+               are a common subsequence of length l0 and a minimal script costs at most N + M - 2 l0 *)
+            @ (match Hashtbl.find_opt h "planted" with
+               | Some p when dlo = None && (alg = "M" || alg = "L") && os = 0 && ns = 0 && s.ko = 0 && s.kn = 0 ->
+                   let p = int_of_string p in
+                   let f a = List.filter (fun x -> x >= p) (Array.to_list a) in
+                   let po = f s.olda and pn = f s.newa in
+                   let l0 = if po = pn && List.length (List.sort_uniq compare po) = List.length po then List.length po else 0 in
+                   let cost = int_of_nat (deleted ops) + int_of_nat (inserted ops) in
+                   [ ("minimal_planted", cost <= (oe - os) + (ne - ns) - (2 * l0)) ]
+               | _ -> [])
             @ (if dlo = None && alg = "P" && small_box os oe ns ne then [ ("anchors_max", anchors_ok s os oe ns ne ops) ] else [])
             @ (if dlo = None && stack = "none" && (alg = "M" || alg = "P") then
                  [ ("work_bound", work_ok alg ops os oe ns ne (int_of_string (get ih "cmps"))) ]
                else [])
+            (* index spaces 2^32 - 3 and 2^40 further out give the same calls shifted (c01_raw_shift) *)
+            @ [ ("big_offsets", get_def ih "bigoff_same" "1" = "1") ]
             @ (match dlo with
                | Some _ when stack = "none" ->
                    (* after expiry only a small constant multiple of N+M further comparisons *)
